@@ -58,7 +58,7 @@ def limit_mem():
 
 
 def run(ctx):
-    ctx.build_repo(need_hook=False)
+    ctx.build_repo(need_hook=True)
     ok, failing, log = ctx.coq_props("C15")
     ctx.coverage["trusted_base"] = TRUSTED
     ctx.coverage["rule"] = ("(1) every ordered pair of 13 near-identical protocols (one field type / name / enum value / enum-vs-flags / "
